@@ -422,6 +422,11 @@ impl TransformerContext {
         )
     }
 
+    /// True when not (yet) processing the content of any element
+    pub fn is_top_level(&self) -> bool {
+        self.current_depth == 0
+    }
+
     pub fn get_top_element(&self) -> Option<SvgElement> {
         self.element_stack.last().cloned()
     }
